@@ -4,7 +4,11 @@ templates with their expected renderings, operation sequences.
 What the generator tells the model about a key store file (`raw_of`) is the part of the tie that stands for X.509:
 which certificate chain `FindChain` finds for a key, whether `ValidateChain` accepts it and whether the end-entity
 certificate may be used for digital signatures.  The stores are built so that these are decided by construction
-(distinct subject names, at most one level of CA, expiry in 2002 for the invalid ones)."""
+(distinct subject names, at most one level of CA, expiry in 2002 for the invalid ones).
+
+Time: a certificate block (leaf or CA) with "expires_ms" runs out that many milliseconds after the start of the case.
+The model is told its validity period (`cert_validity` of the case) and judges the chain at the instant of each load
+itself (Model/SignerTime.lean); `chain_valid` / `sign_usable` are then the verdicts apart from that period."""
 import copy
 import json
 
@@ -466,6 +470,103 @@ def gen_timed_cache_case(rng, pool, tick_ms=TICK_MS):
     ops.append({"op": "jwks"})
     return {"fam": "signer", "keys": [{"t": t, "n": n} for t, n in keys], "holders": holders, "ops": ops,
             "cache": {"tick_ms": tick_ms, "max_ms": 0}}
+
+
+EXPIRES_MS = 3000        # certificates of a case with "expiry_clock" run out this long after its start ...
+AFTER_EXPIRY_MS = 3100   # ... and what is to happen after that instant is not started before this one
+# (X.509 instants are whole seconds: the real NotAfter lies in the last second before EXPIRES_MS. The harness checks for
+# every operation that it ran on the side of the real instant the model has it on and repeats the case otherwise.)
+
+
+def cert_validity(stores):
+    """[[cid, notBefore, notAfter]] in milliseconds since the start of the case for every certificate of the stores
+    that runs out while the case runs (all others are valid throughout)"""
+    rows = {}
+    for st in stores:
+        for b in st.get("blocks", []):
+            if b["t"] in ("cert", "ca") and b.get("expires_ms"):
+                rows[b["cid"]] = [b["cid"], -3_600_000, b["expires_ms"]]
+    return [rows[k] for k in sorted(rows)]
+
+
+def gen_expiry_case(rng, pool, kind, cache=None):
+    """The signing certificate (kind "leaf") or the CA that issued it (kind "ca") runs out while heimdall is up: tokens
+    and the key set before and after that instant, a reload of the unchanged store after it (refused: the certificate
+    is judged at load time), then possibly the renewed certificate for the same key, or another key."""
+    if cache is None:
+        cache = rng.random() < 0.5
+    ec = [k for k in pool if not is_rsa(k[0])]
+    keys = [list(k) for k in rng.sample(ec, 3)]
+    ids = Ids()
+    templates = gen_templates(rng, 1, reserved_p=0.3)
+    while templates[0]["members"] is None:
+        templates = gen_templates(rng, 1, reserved_p=0.3)
+    xkid = rng.choice(["", "", "k1", "sig-2024"])
+    ski = rng.choice(SKIS + [""])
+    fmt = rng.choice(["pkcs8", "sec1"])
+
+    def store_of(expiring, other_first=False):
+        leaf = {"t": "cert", "k": 0, "cid": ids.next(), "ski": ski, "usage": "sig"}
+        blocks = [{"t": "key", "k": 0, "fmt": fmt, "xkid": xkid}, leaf]
+        if kind == "ca":
+            leaf["ca"] = 1
+            ca = {"t": "ca", "ca": 1, "cid": 901}
+            if expiring:
+                ca["expires_ms"] = EXPIRES_MS
+            else:
+                leaf["ca"], ca = 2, {"t": "ca", "ca": 2, "cid": 902}    # issued anew by another, long-lived CA
+            blocks.insert(rng.randrange(len(blocks) + 1), ca)
+        elif expiring:
+            leaf["expires_ms"] = EXPIRES_MS
+        if with_other:
+            blocks.append({"t": "key", "k": 1, "fmt": "pkcs8", "xkid": "other"})
+        return {"blocks": blocks}
+
+    with_other = rng.random() < 0.5
+    store = store_of(True)
+    renewed = store_of(False)
+    another = {"blocks": [{"t": "key", "k": 2, "fmt": "pkcs8", "xkid": "next"}]}
+    h = {"id": "jwt0", "key_id": "", "name": rng.choice(ISSUERS), "password": "",
+         "ttl_ns": 600_000_000_000 if cache else rng.choice([None, 2_000_000_000, 90_250_000_000, 600_000_000_000]),
+         "tpl": rng.choice([None, 0]), "claims_tpl": None, "header": rng.choice(HEADERS), "store": store,
+         "raw": raw_of(store)}
+    if h["tpl"] is not None:
+        h["claims_tpl"] = templates[0]["text"]
+    subjects = [gen_subject(rng) for _ in range(2)]
+    while subjects[1][0] == subjects[0][0]:
+        subjects[1] = gen_subject(rng)
+
+    def sign(who, at):
+        sub, attrs, outputs = copy.deepcopy(subjects[who])
+        op = {"op": "sign", "h": 0, "sub": sub, "attrs": attrs, "outputs": outputs, "ov": None, "at_ms": at}
+        set_renders(op, templates, [h])
+        return op
+
+    def reload(st, at):
+        st = copy.deepcopy(st)
+        return {"op": "reload", "h": 0, "store": st, "raw": raw_of(st), "at_ms": at}
+
+    a = AFTER_EXPIRY_MS
+    ops = [sign(0, 0), {"op": "jwks", "at_ms": 0}]
+    if rng.random() < 0.5:
+        ops.append(reload(store, 0))          # while the certificate is valid the unchanged store loads again
+    # after the expiry: the same subject again (with a cache: the token of before), another one, the key set
+    ops += [sign(0, a), sign(1, a), {"op": "jwks", "at_ms": a}]
+    # the store with the same certificates is refused now (a further key makes visible whether it was): nothing changes
+    late = copy.deepcopy(store)
+    late["blocks"].append({"t": "key", "k": 2, "fmt": "pkcs8", "xkid": "late"})
+    ops += [reload(late, a), sign(rng.choice([0, 1]), a), {"op": "jwks", "at_ms": a}]
+    r = rng.random()
+    if r < 0.4:
+        ops += [reload(renewed, a), sign(0, a), {"op": "jwks", "at_ms": a}]
+    elif r < 0.6:
+        ops += [reload(another, a), sign(0, a), {"op": "jwks", "at_ms": a}]
+    case = {"fam": "signer", "keys": [{"t": t, "n": n} for t, n in keys], "holders": [h], "ops": ops,
+            "expiry_clock": True, "cert_validity": cert_validity([store, renewed])}
+    if cache:
+        # every TTL of the case is 10 minutes: whatever is stored stays for the whole case, no deadline
+        case["cache"] = {"tick_ms": 0, "max_ms": 0}
+    return case
 
 
 def gen_conc_case(rng, pool):
